@@ -141,6 +141,8 @@ def run(P, R, tier):
     rangeinit_rule(P, R)
     phasecoef_rule(P, R)
     minimalrange_rule(P, R)
+    isokey_rule(P, R)
+    isoskip_rule(P, R)
     R.undecided += ["mole balance of every element within the declared uncertainties; min..max ranges (solver output)",
                     "which subsets of phases the search visits; isotope balances"]
     R.rule("C18.sign", "one sign convention from the input word to the solver's acceptance test: precipitate <= 0, dissolve >= 0, mixing fractions >= 0", minimum=7)
@@ -522,3 +524,99 @@ def minimalrange_rule(P, R):
     else:
         R.violation(RULE, "removal-loop", "the removal loop of minimal_solve runs to %r but the entity mask has %r bits: the members from that bound to the last but one (initial solutions) "
                     "are never tried, so a reported -minimal model can strictly contain another reported model" % (bound, width), file=f["file"], line=removal[0][1], function=f["q"])
+
+
+def isokey_rule(P, R):
+    """An isotope of the inverse model is identified by element AND isotope number (13C, 14C): the model's list inverse::isotopes, the
+    isotope unknowns and the isotopes on the phase lines are matched against each other throughout inverse.cpp.  Every equality test of the
+    elt_name of such a record must stand in one logical expression with a test of the isotope number - a match on the element alone
+    takes 14C for 13C (read_inv_isotopes dropped the second isotope of an element without a message)."""
+    RULE = "C18.isokey"
+    R.rule(RULE, "every comparison of an isotope record's elt_name is joined with a comparison of the isotope number", minimum=6)
+    n = 0
+
+    def has_number(root):
+        for y in T.walk(root):
+            if y[0] == "Member" and y[2].endswith("::isotope_number"):
+                return True
+            if y[0] == "Call" and T.callee_name(y) == "Get_isotope_number":
+                return True
+            if y[0] == "Ref" and y[2] in ("local", "param") and y[3] == "isotope_number":
+                return True
+        return False
+
+    for k, g in sorted(P.functions.items(), key=lambda kv: (kv[1]["file"], kv[1]["line"])):
+        if not g.get("body"):
+            continue
+
+        def visit(node, root):
+            nonlocal n
+            if not T.is_node(node):
+                return
+            logical = node[0] == "Bin" and node[2] in ("&&", "||")
+            here = root if (root is not None and (logical or node[0] in ("Paren", "Cast", "Un"))) else (node if logical else None)
+            if node[0] == "Bin" and node[2] in ("==", "!="):
+                ms = [m for side in (node[3], node[4]) for m in [T.strip_casts(side)] if T.is_node(m) and m[0] == "Member" and m[2] in ("inv_isotope::elt_name", "isotope::elt_name")]
+                if ms:
+                    n += 1
+                    inst = "%s@%d" % (g["q"].split("::")[-1], node[1] - g["line"])
+                    scope = root if root is not None else node
+                    if has_number(scope):
+                        R.ok(RULE, inst, "element and isotope number")
+                    else:
+                        R.violation(RULE, inst, "`%s` matches an isotope record on the element name alone: a second isotope of the same element (14C beside 13C) is taken for the first"
+                                    % T.text(node)[:70], file=g["file"], line=node[1], function=g["q"])
+                    return
+            for c in node[2:]:
+                if isinstance(c, list):
+                    if c and isinstance(c[0], str):
+                        visit(c, here)
+                    else:
+                        for cc in c:
+                            if isinstance(cc, list) and cc and isinstance(cc[0], str):
+                                visit(cc, None)
+        visit(g["body"], None)
+    if n < 6:
+        R.anchor_missing(RULE, "only %d comparisons of an isotope record's elt_name found" % n)
+
+
+def isoskip_rule(P, R):
+    """phase_isotope_inequalities writes, for every isotope j of every phase i, the optimisation entry and the two rows that bound the
+    adjustment of the isotope ratio by its declared uncertainty.  Inside the loop over j nothing may leave the loop: an isotope that is
+    not balanced (not in the -isotopes list), has zero uncertainty or belongs to an unconstrained phase is skipped with `continue`; a
+    `break` also skips the isotopes that follow it, whose adjustment is then unbounded."""
+    RULE = "C18.isoskip"
+    R.rule(RULE, "phase_isotope_inequalities: the loop over a phase's isotopes skips single isotopes (continue), it is never left early", minimum=3)
+    f = P.one("Phreeqc::phase_isotope_inequalities")
+    loops = [lp for lp in T.walk(f["body"]) if lp[0] == "For"]
+    # the loop over the phase's isotopes: its bound mentions phases[i].isotopes
+    target = [lp for lp in loops if "phases" in T.text(lp[3], -40) and "isotopes" in T.text(lp[3], -40) and "size" in T.text(lp[3], -40)]
+    if len(target) != 1:
+        R.anchor_missing(RULE, "phase_isotope_inequalities: loop over the isotopes of a phase not found (%d candidates)" % len(target))
+        return
+    n = 0
+
+    def visit(node, depth):
+        nonlocal n
+        if not T.is_node(node):
+            return
+        if node[0] in ("For", "While", "Do", "Switch"):
+            depth += 1
+        if node[0] == "Continue" and depth == 0:
+            n += 1
+            R.ok(RULE, "continue@%d" % (node[1] - f["line"]), "skips one isotope")
+        if node[0] in ("Break", "Return", "Goto") and (depth == 0 or node[0] != "Break"):
+            n += 1
+            R.violation(RULE, "%s@%d" % (node[0].lower(), node[1] - f["line"]), "the loop over the isotopes of a phase is left by `%s`: the isotopes of the phase that follow get no "
+                        "uncertainty bounds and their adjustment is free" % node[0].lower(), file=f["file"], line=node[1], function=f["q"])
+        for c in node[2:]:
+            if isinstance(c, list):
+                if c and isinstance(c[0], str):
+                    visit(c, depth)
+                else:
+                    for cc in c:
+                        if isinstance(cc, list) and cc and isinstance(cc[0], str):
+                            visit(cc, depth)
+    visit(target[0][5], 0)
+    if n < 3:
+        R.anchor_missing(RULE, "phase_isotope_inequalities: only %d skip statements in the isotope loop" % n)
